@@ -18,6 +18,9 @@ EDGE = [
     'x, a::b::C(1)', 'x, _', 'x, _ { .. }', 'x, [..]', 'x, #(..)', 'x + 1, > 2', 'f(a, b).await, Ok(_)',
     'x, S { a: 1, a: > 0, b.c: 2, b.d: 3, .. }', 'x, ((1, 2), [(3, _)], #((4,), ..))',
     'x, S { m.get("k").unwrap(): 1, v[i + 1].0: "s", .. }', 'x, -5..=-1', 'x, ..', 'x, [.., 5]', 'x, [1, ..]',
+    'x, [5.., ..=2, 3]', 'x, [..5]', 'x, (.., 1)', 'x, Some(..)', 'x, #{ "k": .., .. }', 'x, S { r#type: 1, r#match.len(): 2, .. }',
+    'x, E::V { r#fn: "s" }', 'x, _ { r#type: 1, .. }', 'x, _ { 4294967295: 1, .. }', 'x, S { a.4294967295: 1, .. }', 'x, (4294967295: 1)',
+    'x, S { t.0.1: 1, t.1.0.2: 2, .. }', 'x, S { a: 1, }', 'x, S { a: 1, .., }', 'x, #(1, 2, ..,)', 'x, [1, 2,]', 'x, (1, 2,)', 'x, #{ "a": 1, }',
 ]
 
 
@@ -104,6 +107,20 @@ def run(ck, n_gen=None):
         a = f[6][6:-1].split(" ")
         b = g[2][6:-1].split(" ")
         stats["tokens_compared"] += len(a)
+        # implementation vs specification, directly on the real tokens: every node referred to is
+        # defined, and defined exactly once
+        names = [unhexs(t.split("@")[0]) if not t.startswith("s:") else "" for t in a]
+        defined, referenced = [], set()
+        for i, nme in enumerate(names):
+            if nme.startswith("__PATTERN_NODE_"):
+                if i > 0 and names[i - 1] == "static":
+                    defined.append(nme)
+                else:
+                    referenced.add(nme)
+        if len(defined) != len(set(defined)) or not referenced <= set(defined):
+            mism.append(dict(text=texts[k], part="wellformed",
+                             detail="node constants defined: %s; referred to but not defined: %s; defined more than once: %s" % (
+                                 sorted(set(defined)), sorted(referenced - set(defined)), sorted({d for d in defined if defined.count(d) > 1}))))
         if a != b:
             i = next((i for i, (x, y) in enumerate(zip(a, b)) if x != y), min(len(a), len(b)))
             part = "nodes" if i < _split_nodes_body(a) else "body"
